@@ -31,6 +31,7 @@ type streamCase struct {
 	Used    int           // history of the parser objects (frontends.go: feUsed)
 	Reuse   bool          // the parsers' Reuse option (frontends.go: feReuse)
 	BReset  bool          // one Builder per token stream, Reset between documents (frontends.go: feBuilderReset)
+	ChanCap int           // channel mode: capacity of the result channels, served by the simulator's consumer; -1: room for everything
 	Fault   *sim.Schedule // fault configuration: a delivery schedule whose reader fails (non-EOF) at an offset
 	Variant int           // which package-level variants (Must*, *String, *Load ...) are run besides (frontends.go: pkgVariant)
 	feat    map[string]any
@@ -47,7 +48,7 @@ func (c *streamCase) render() any {
 	for _, s := range c.Scheds {
 		ss = append(ss, s.String())
 	}
-	return map[string]any{"family": c.Family, "input": in, "mode": []string{"single", "callback", "channel"}[c.Mode], "schedules": ss, "sweep": c.Sweep, "parser_history": []string{"fresh", "parsed another document before", "previous streamed call failed mid-document", "previous call failed after a complete document"}[c.Used], "reuse_option": c.Reuse, "one_builder_per_stream": c.BReset, "reader_fault": fmt.Sprint(c.Fault)}
+	return map[string]any{"family": c.Family, "input": in, "mode": []string{"single", "callback", "channel"}[c.Mode], "schedules": ss, "sweep": c.Sweep, "parser_history": []string{"fresh", "parsed another document before", "previous streamed call failed mid-document", "previous call failed after a complete document"}[c.Used], "reuse_option": c.Reuse, "one_builder_per_stream": c.BReset, "result_channel_capacity": c.ChanCap, "reader_fault": fmt.Sprint(c.Fault)}
 }
 
 var bom = []byte{0xEF, 0xBB, 0xBF}
@@ -144,7 +145,7 @@ func (c *streamCase) features() map[string]any {
 }
 
 func drawStreamCase(t *rapid.T, forC09 bool) *streamCase {
-	c := &streamCase{}
+	c := &streamCase{ChanCap: -1}
 	depth := 3
 	var fam int
 	if forC09 {
@@ -195,6 +196,9 @@ func drawStreamCase(t *rapid.T, forC09 bool) *streamCase {
 	}
 	if !c.SEN && c.Mode == modeSingle && !forC09 && sim.Intn(t, 8, "multimode") == 7 {
 		c.Mode = 1 + sim.Intn(t, 2, "mode")
+	}
+	if !forC09 && c.Mode == modeChan && sim.Intn(t, 3, "boundedchan?") == 0 {
+		c.ChanCap = sim.Intn(t, 3, "chancap")
 	}
 	if !forC09 && !c.SEN && sim.Intn(t, 12, "bom") == 11 {
 		c.Input = append(append([]byte(nil), bom...), c.Input...)
@@ -513,12 +517,12 @@ func cutProbes(cx *sim.Ctx, c *streamCase, toks []ref.Span, shift int, bounds []
 }
 
 func propC03(cx *sim.Ctx) {
-	sim.Declare([]string{"cut_inside_string", "cut_inside_number", "cut_inside_literal", "cut_inside_whitespace", "cut_inside_unicode_escape", "cut_between_escape_pair", "cut_right_after_backslash", "cut_after_open_quote", "cut_after_minus", "cut_after_dot", "cut_after_e", "cut_after_exp_sign", "cut_right_after_newline", "cut_between_cr_lf", "cut_inside_bom", "cut_at_4096_multiple", "cut_at_4096_in_string", "cut_at_4096_in_number", "strict_json_vs_sen", "both_error_delivered_prefix_differs"}, []string{"reader_error_mid_stream"})
+	sim.Declare([]string{"cut_inside_string", "cut_inside_number", "cut_inside_literal", "cut_inside_whitespace", "cut_inside_unicode_escape", "cut_between_escape_pair", "cut_right_after_backslash", "cut_after_open_quote", "cut_after_minus", "cut_after_dot", "cut_after_e", "cut_after_exp_sign", "cut_right_after_newline", "cut_between_cr_lf", "cut_inside_bom", "cut_at_4096_multiple", "cut_at_4096_in_string", "cut_at_4096_in_number", "strict_json_vs_sen", "both_error_delivered_prefix_differs", "producer_stalled_on_full_channel"}, []string{"reader_error_mid_stream"})
 	c := drawStreamCase(cx.T, false)
 	cx.Render(c.render)
-	cx.Key(c.Input, c.Mode, c.Used, c.Reuse, c.BReset)
-	feUsed, feReuse, feBuilderReset = c.Used, c.Reuse, c.BReset
-	defer func() { feUsed, feReuse, feBuilderReset = 0, false, false }()
+	cx.Key(c.Input, c.Mode, c.Used, c.Reuse, c.BReset, c.ChanCap)
+	feUsed, feReuse, feBuilderReset, feChanCap = c.Used, c.Reuse, c.BReset, c.ChanCap
+	defer func() { feUsed, feReuse, feBuilderReset, feChanCap = 0, false, false, -1 }()
 	for _, s := range c.Scheds {
 		cx.Key(s.String())
 	}
